@@ -40,6 +40,19 @@ claim('C20', 'proof',
  "trusted: gcc/g++/nm (facts), the header/prototype scanner in tools/props/c20.py; 3 prototypes are declared but defined in no variant (identical across variants; listed in the evidence)",
  "DESIGN.md section 4, C20", "machine-checked layout model in Coq + finite checks by vm_compute over build facts")
 
+claim('C05', 'proof',
+ "Coq theorems on a byte-level model of tfhe_io.cpp/tfhe_generic_streams.cpp (text sections with std::map order, %10ld/stol, type tags, little-endian arrays, the single stored variance, both transports' readers): for all 14 serialisable object types, every well-formed object and every continuation of the stream, import(export(x) ++ rest) returns x (key material: with the per-row variance normalised to the maximum) and leaves exactly rest in a good stream; stol(printf %10ld) = id on int64; the section parser inverts the section writer; re-export is idempotent; tied to the code by byte-exact comparison of exports and field-exact comparison of imports for generated objects of every type on both transports, sequences of objects in one stream, and full-size key sets (re-import, re-export, gates under original vs re-imported cloud key, decryption)",
+ "trusted: Coq kernel, extraction, harness; the real-number text pair printf(%.17lg)/stold is a Section variable with the round-trip hypothesis (exercised on every object incl. both default sets; the model driver uses the same libc); defect D3 (%.8lf lossy, also a 64-byte buffer overrun for large values) repaired in /repo (fix: ff3814d)",
+ "DESIGN.md section 4, C05")
+claim('C17', 'proof',
+ "Coq theorems on the codec model: export_secret = export_cloud ++ (LWE key section ++ TGSW key section) with a non-empty tail; every byte of the cloud export is attributed in order to public fields (parameters, one variance, (a,b) of the key-switching rows, one variance, bootstrapping-row coefficients) and the function does not take the secret keys as an argument; exact length formula; importing a cloud key from a secret export stops before the key sections; tied to the code by byte equality of harness-written key sets with the model and, on library-generated key sets (default and custom, several seeds, both transports), by the measured length against the formula, the prefix relation and a substring search for the secret keys in every encoding the library writes",
+ "trusted: Coq kernel, extraction, harness; 'the bytes do not contain the key' is proved as provenance and searched as a substring (it cannot hold for all keys as a byte-level statement)",
+ "DESIGN.md section 4, C17")
+claim('C18', 'proof',
+ "Coq theorems: a generic truncation theorem (an importer built from sticky, suffix-consuming, local readers that cleanly consumes c is never clean on a proper prefix of c, whatever follows), the raw reader and the whole text-section parser proved well-behaved on both transports, every one of the 14 importers proved to be such a program, hence (with C05's round trip) no proper prefix of any export is accepted with a good stream; wrong section titles and wrong type tags abort; tied to the code by running every importer in a forked child on every byte offset of the export of every type, all type-A-into-importer-B pairs and single-byte corruptions of titles and tags, comparing the outcome class and stream bits with the model's",
+ "trusted: Coq kernel, extraction, harness; SIGSEGV on the NULL section counts as terminating the process; where a decision depends on bytes a short C++-stream read left undetermined the model answers 'unknown' and any not-clean outcome is accepted",
+ "DESIGN.md section 4, C18")
+
 NA_REASON = "check not built yet in this revision (work in progress; DESIGN.md section 8 gives the order)"
 checks = []
 for p in props:
